@@ -124,10 +124,11 @@ type World struct {
 	ExitCode int
 	Exited   bool
 
-	Stdout   []byte
-	Stderr   []byte
-	nextH    int
-	FiredSeq []int
+	Stdout    []byte
+	Stderr    []byte
+	nextH     int
+	FiredSeq  []int
+	stickyErr syscall.Errno
 	// OutEvents records the order of stream writes: (seq, fd, n)
 	stdinPos      int
 	stdinErr      syscall.Errno
@@ -837,6 +838,9 @@ func (h *Handle) Write(b []byte) (int, syscall.Errno) {
 	n := len(b)
 	var ferr syscall.Errno
 	var killAfter bool
+	if f == nil && w.stickyErr != 0 && h.stream == 0 {
+		f = &Fault{AtOp: op.Seq, Kind: "fail", Bytes: 0, Errno: ErrnoName(w.stickyErr)}
+	}
 	if f != nil {
 		switch f.Kind {
 		case "kill":
@@ -854,6 +858,9 @@ func (h *Handle) Write(b []byte) (int, syscall.Errno) {
 				n = 0
 			} else if f.Bytes < n {
 				n = f.Bytes
+			}
+			if f.Sticky && h.stream == 0 {
+				w.stickyErr = ferr
 			}
 		}
 	}
